@@ -107,7 +107,7 @@ def _work(item):
         # deterministic pseudo-random sampling of passing paths for witnesses
         if not viol and err is None and c.poison is None:
             h = hashlib.sha1(repr((seed, job_idx, c.trace)).encode()).digest()
-            if h[0] < _OPTS.get("sample_rate", 2):
+            if h[0] < _OPTS.get("sample_rate", 2) or st["paths"] <= 2:
                 w = None
                 try:
                     w = c.witness_inputs()
